@@ -55,6 +55,12 @@ func c03PreMsg(bs string, kind byte, seq int) []byte {
 		f = append(f, groupEndBody...)
 	case 'H':
 		f[1].Value = "0"
+	case 'A': // an application type whose first character is that of an administrative one
+		f[1].Value = "AE"
+		f = append(f, fixscan.Field{571, "TR" + strconv.Itoa(seq)}, fixscan.Field{55, "X"}, fixscan.Field{58, "a=b"})
+	case 'N': // News: the body begins with a group count
+		f[1].Value = "B"
+		f = append(f, fixscan.Field{33, "2"}, fixscan.Field{58, "line one"}, fixscan.Field{58, "line=two"}, fixscan.Field{148, "headline"})
 	}
 	return fixscan.Build(f)
 }
@@ -104,6 +110,12 @@ func c03World(c c03Case) (*sessmc.World, []c03Sent, error) {
 			case 'E':
 				// through the API the body is ordered by tag, so 453 sorts last when the other tags are smaller
 				grab(w.Apply(&sessmc.Event{K: "send", Name: "sendE", Send: []fixscan.Field{{11, "ID"}, {55, "IBM"}, {54, "1"}, {40, "1"}}, SendGroupLast: true}))
+				grab(w.Apply(sessmc.EvFlush()))
+			case 'A':
+				grab(w.Apply(&sessmc.Event{K: "send", Name: "sendAE", SendType: "AE", Send: []fixscan.Field{{571, "TR"}, {55, "X"}, {58, "a=b"}}}))
+				grab(w.Apply(sessmc.EvFlush()))
+			case 'N':
+				grab(w.Apply(&sessmc.Event{K: "send", Name: "sendNews", SendNews: true}))
 				grab(w.Apply(sessmc.EvFlush()))
 			case 'H':
 				grab(w.Apply(sessmc.EvTimeout(quickfix.VerifNeedHeartbeat)))
@@ -313,7 +325,7 @@ func runC03(c *core.Ctx) {
 	} else {
 		c.SetDeadline(5 * time.Minute)
 	}
-	c.SetRule(fmt.Sprintf("every outbound history of length <= %d over {plain application, application with nested groups, heartbeat} (after the Logon; produced through the live send path, or pre-stored with older SendingTime followed by the Logon), every subset of application messages refused on resend, every request [b,e] with 1<=b<=last+2 and e in {0,999999,1..last+2}, x BeginString x persistence x dictionaries x role; distinct = distinct (config,history,refusals,request)", N))
+	c.SetRule(fmt.Sprintf("every outbound history of length <= %d over {plain application, application with nested groups, application with the group last, heartbeat} plus histories <= 2 that also use a two-character application type (AE) and News (body beginning with a group count) (after the Logon; produced through the live send path, or pre-stored with older SendingTime followed by the Logon), every subset of application messages refused on resend, every request [b,e] with 1<=b<=last+2 and e in {0,999999,1..last+2}, x BeginString x persistence x dictionaries x role; distinct = distinct (config,history,refusals,request)", N))
 	c.Assume("b=0 is outside the domain", "one session is reused for all requests against the same (config, history, refusals); every 7th request additionally on a fresh session",
 		"body identity is judged on the region between the last leading header field and the first trailing trailer field (standard tag tables)")
 	type group struct {
@@ -335,6 +347,16 @@ func runC03(c *core.Ctx) {
 		}
 	}
 	rec("")
+	// two more kinds — a two-character application type beginning like an administrative one (AE), and News, whose
+	// body begins with a group count — in every history of up to two messages over all six kinds
+	for _, a := range "PGEHAN" {
+		for _, b := range " PGEHAN" {
+			h := strings.TrimSpace(string(a) + string(b))
+			if strings.ContainsAny(h, "AN") {
+				hists = append(hists, h)
+			}
+		}
+	}
 	for _, cfg := range c03Configs(c.Quick()) {
 		for _, pre := range []bool{false, true} {
 			for _, h := range hists {
